@@ -322,6 +322,13 @@ def collection_spec(draw, ctype=None, paths="plain"):
                 ms.append({"uuid": draw(_uuid()), "source": m["source"], "target": m["target"], "affinity": draw(_score),
                            "score": draw(st.one_of(st.none(), _score)), "metrics": draw(_features(2))})
             cevs.append({"uuid": draw(_uuid()), "ann": k, "pred": k, "matches": ms, "metrics": draw(_features(2)), "score": draw(st.one_of(st.none(), _score))})
+        if cevs and draw(st.integers(0, 3)) == 0:
+            # the same predictions (and annotations) evaluated a second time, e.g. under another scoring: two clip evaluations
+            # share one ClipPrediction / ClipAnnotation object; every match gets an identifier of its own
+            src = cevs[draw(st.integers(0, len(cevs) - 1))]
+            twin = {"uuid": draw(_uuid()), "ann": src["ann"], "pred": src["pred"], "metrics": draw(_features(2)), "score": draw(st.one_of(st.none(), _score)),
+                    "matches": [dict(m, uuid=draw(_uuid())) for m in src["matches"]]}
+            cevs.append(twin)
         top["clip_evaluations"] = cevs
     return spec
 
